@@ -91,6 +91,8 @@ package internal
 //@ -- ---------------------------------------------------------------------------------------
 //@ -- Server plumbing shared by the three handlers (C13, C11, C09, C08, C12)
 //@ spec validReq(r *http.Request) bool = r != nil && r.URL != nil && r.Body != nil
+//@ spec xmlReq(r *http.Request) bool = mimeType(hget(hv, r.Header, "Content-Type")) == "application/xml" || mimeType(hget(hv, r.Header, "Content-Type")) == "text/xml"
+//@ spec formOKv(pf PropFind) bool = pf.PropName != nil || pf.AllProp != nil || pf.Prop != nil
 //@ spec wstatus(w http.ResponseWriter) int = rsGet(rstatus, w)
 //@ -- errors a handler may pass on: made by the backend, by the environment (response writer / encoder),
 //@ -- or a 4xx built by the library itself
@@ -145,15 +147,48 @@ package internal
 //@   ensures N1: resp != nil && fresh(resp) && len(resp.Hrefs) == 1 && resp.Hrefs[0].Path == path
 //@   ensures N2: resp.Status != nil && resp.Status.Code == errStatus(err) && len(resp.PropStats) == 0
 
-//@ -- PROPFIND answers (C11 decides the per-property accounting; here only what C01/C03/C12 need, assumed until then)
-//@ func internal.NewPropFindResponse(path, propfind, props) (resp, err)
-//@   trusted C11
-//@   requires R1: propfind != nil
+//@ -- PROPFIND answers (C11): one response with one href; per-property accounting through the EncodeProp log.
+//@ -- A PropFindFunc is one of the function literals of /repo (each is verified against these clauses under its own
+//@ -- key); it computes a property value, may ask the backend read-only questions and changes nothing.
+//@ extern funcvalue:internal.PropFindFunc(raw) (val, err)
+//@   trusted closures
+//@   requires R1: raw != nil
 //@   allocates
+//@   ensures mutations == old(mutations) && epCalls == old(epCalls) && epCode == old(epCode) && epVal == old(epVal)
+//@   ensures err != nil ==> beErr(err) || fromEnv(err)
+//@ spec namedRaw(v RawXMLValue) bool = dynIs(v.tok, "xml.StartElement")
+//@ spec rawName(v RawXMLValue) xml.Name = dynVal(v.tok, "xml.StartElement").Name
+//@ spec propFormOnly(pf *PropFind) bool = pf.PropName == nil && pf.AllProp == nil && pf.Prop != nil
+//@ -- every requested property is an element (which is what RawXMLValue.UnmarshalXML stores for the children of DAV:prop)
+//@ spec allNamed(pf *PropFind) bool = pf.Prop != nil && (forall j int :: 0 <= j && j < len(pf.Prop.Raw) ==> namedRaw(pf.Prop.Raw[j]))
+//@ func internal.NewPropFindResponse(path, propfind, props) (resp, err)
+//@   requires R1: propfind != nil && props != nil
+//@   requires R2: forall k xml.Name :: has(props, k) ==> props[k] != nil
+//@   allocates
+//@   assigns MV_encoding_xml_Name__internal_PropFindFunc, MD_encoding_xml_Name__internal_PropFindFunc, ghost:epCalls, ghost:epCode, ghost:epVal
 //@   ensures N1: err == nil ==> resp != nil && fresh(resp) && len(resp.Hrefs) == 1 && resp.Hrefs[0].Path == path && resp.Status == nil
 //@   ensures N2: err == nil <==> propfind.PropName != nil || propfind.AllProp != nil || propfind.Prop != nil
 //@   ensures N3: err != nil ==> resp == nil && httpCode(err) == 400 && !hostPath(err)
-
+//@   ensures N4: mutations == old(mutations)
+//@   -- prop form: every requested name is accounted for exactly once, in request order; 404 exactly for the names the resource does not have
+//@   ensures A1: propFormOnly(propfind) && old(allNamed(propfind)) ==> epCalls == old(epCalls) + len(propfind.Prop.Raw)
+//@   ensures A1b: propFormOnly(propfind) ==> epCalls <= old(epCalls) + len(propfind.Prop.Raw)
+//@   ensures A2: propFormOnly(propfind) && old(allNamed(propfind)) ==> (forall j int :: 0 <= j && j < len(propfind.Prop.Raw) && !(has(old(props), rawName(propfind.Prop.Raw[j])) || rawName(propfind.Prop.Raw[j]) == ResourceTypeName)
+//@   |   ==> smt("int", "(select $0 $1)", epCode, old(epCalls) + j) == 404)
+//@   -- propname / allprop: only properties the resource has are listed, propname under 200
+//@   ensures A3: propfind.PropName != nil ==> (forall k int :: old(epCalls) <= k && k < epCalls ==> smt("int", "(select $0 $1)", epCode, k) == 200)
+//@   ensures A4: err == nil ==> psDistinct(resp)
+//@   loop 1 invariant I1: resp != nil && fresh(resp) && psDistinct(resp) && len(resp.Hrefs) == 1 && resp.Hrefs[0].Path == path && resp.Status == nil && mutations == old(mutations) && epCalls >= old(epCalls)
+//@   loop 1 invariant I2: forall k int :: old(epCalls) <= k && k < epCalls ==> smt("int", "(select $0 $1)", epCode, k) == 200
+//@   loop 1 invariant I3: forall k xml.Name :: has(props, k) ==> props[k] != nil
+//@   loop 2 invariant I1: resp != nil && fresh(resp) && psDistinct(resp) && len(resp.Hrefs) == 1 && resp.Hrefs[0].Path == path && resp.Status == nil && mutations == old(mutations)
+//@   loop 2 invariant I3: forall k xml.Name :: has(props, k) ==> props[k] != nil
+//@   loop 3 invariant I1: resp != nil && fresh(resp) && psDistinct(resp) && len(resp.Hrefs) == 1 && resp.Hrefs[0].Path == path && resp.Status == nil && mutations == old(mutations) && epCalls <= old(epCalls) + #i && (old(allNamed(propfind)) ==> epCalls == old(epCalls) + #i)
+//@   loop 3 invariant I2: old(allNamed(propfind)) ==> forall j int :: 0 <= j && j < #i && !(has(old(props), rawName(propfind.Prop.Raw[j])) || rawName(propfind.Prop.Raw[j]) == ResourceTypeName)
+//@   |   ==> smt("int", "(select $0 $1)", epCode, old(epCalls) + j) == 404
+//@   loop 3 invariant I4: (forall k int :: 0 <= k && k < len(resp.PropStats) ==> fresh(resp.PropStats[k].Prop.Raw)) && (forall j int :: 0 <= j && j < len(propfind.Prop.Raw) ==> propfind.Prop.Raw[j] == old(propfind.Prop.Raw[j]))
+//@   |   && propfind.Prop == old(propfind.Prop) && propfind.Prop.Raw == old(propfind.Prop.Raw)
+//@   loop 3 invariant I3: (forall k xml.Name :: has(props, k) ==> props[k] != nil) && (forall k xml.Name :: has(props, k) <==> (has(old(props), k) || k == ResourceTypeName))
 //@ -- error answers (C13, C17): the status is the error's HTTP code, 500 for an error without one; the error text is the body
 //@ func internal.ServeError(w, err)
 //@   requires R1: w != nil && err != nil
@@ -183,6 +218,11 @@ package internal
 //@   requires R2: psDistinct(resp)
 //@   allocates
 //@   assigns H_internal_Response_PropStats, E_internal_PropStat, E_internal_RawXMLValue
+//@   -- ghost log of the values filed (call k filed value epVal[k] under status epCode[k]); used by NewPropFindResponse
+//@   ghostset epCode : smt("$(Array Int Int)", "(store $0 $1 $2)", epCode, epCalls, code)
+//@   ghostset epVal : smt("$(Array Int Iface)", "(store $0 $1 $2)", epVal, epCalls, v)
+//@   ghostset epCalls : epCalls + 1
+//@   ensures L1: epCalls == old(epCalls) + 1 && epCode == smt("$(Array Int Int)", "(store $0 $1 $2)", old(epCode), old(epCalls), code) && epVal == smt("$(Array Int Iface)", "(store $0 $1 $2)", old(epVal), old(epCalls), v)
 //@   ensures E1: err == nil
 //@   ensures E2: psDistinct(resp)
 //@   ensures E3: len(resp.PropStats) >= old(len(resp.PropStats)) && len(resp.PropStats) <= old(len(resp.PropStats)) + 1
@@ -192,6 +232,9 @@ package internal
 //@   |   && (len(resp.PropStats) == old(len(resp.PropStats)) + 1 <==> k == old(len(resp.PropStats)))
 //@   ensures E5: forall i int :: 0 <= i && i < old(len(resp.PropStats)) ==> resp.PropStats[i].Status.Code == old(resp.PropStats[i].Status.Code)
 //@   |   && (resp.PropStats[i].Status.Code != code ==> len(resp.PropStats[i].Prop.Raw) == old(len(resp.PropStats[i].Prop.Raw)))
+//@   -- frame: only the value lists of this response's propstats are written; a list that is replaced is replaced by fresh memory
+//@   ensures E6: forall s []RawXMLValue, i int :: old(allocated(s)) && 0 <= i && i < len(s) && (forall k int :: 0 <= k && k < old(len(resp.PropStats)) ==> base(s) != old(base(resp.PropStats[k].Prop.Raw))) ==> s[i] == old(s[i])
+//@   ensures E7: forall k int :: 0 <= k && k < len(resp.PropStats) ==> (k < old(len(resp.PropStats)) && base(resp.PropStats[k].Prop.Raw) == old(base(resp.PropStats[k].Prop.Raw))) || fresh(resp.PropStats[k].Prop.Raw)
 //@   witness E4: k : (len(resp.PropStats) == old(len(resp.PropStats)) ? #i1 - 1 : old(len(resp.PropStats)))
 //@   loop 1 invariant I1: len(resp.PropStats) == old(len(resp.PropStats)) && (forall j int :: 0 <= j && j < len(resp.PropStats) ==> resp.PropStats[j] == old(resp.PropStats[j]))
 //@   loop 1 invariant I2: forall j int :: 0 <= j && j < #i ==> resp.PropStats[j].Status.Code != code
